@@ -796,36 +796,42 @@ def mentions(body):
     return out
 
 
-def pep709_corner(body, infunc=False):
+def pep709_corner(body, infunc=False, params=()):
     """CPython 3.12 inlines comprehensions (PEP 709): the target of a comprehension written in a function F becomes a
-    local of F for the scopes nested in F, so a nested function's free / nonlocal reference to that name denotes F's
-    (mostly unbound) cell instead of an outer variable.  Programs that depend on that corner are outside the model."""
-    def comp_targets(b):
-        t = set()
+    fast local of F.  When F does not bind that name itself, every other mention of it inside F - in a nested function
+    (free / nonlocal reference), in ANOTHER comprehension of F, in F's own statements - may denote F's (mostly unbound)
+    slot instead of an outer variable (3.12.1: NameError where 3.11 reads the outer variable).  Programs that depend on
+    that corner are outside the model: a comprehension target of F that F does not bind must not be mentioned anywhere
+    else in F."""
+    def comps(b):
+        out = []
         for s in b:
             if s['k'] == 'comp':
-                t.add(s['name'])
+                out.append(s)
             elif s['k'] in ('if', 'for'):
-                t |= comp_targets(s['body']) | comp_targets(s.get('orelse') or [])
-        return t
+                out += comps(s['body']) + comps(s.get('orelse') or [])
+        return out
 
-    def nested_mentions(b):
-        m = set()
+    def mention_count(b, name, skip):
+        """mentions of `name` in the body b, nested scopes included, the comprehension `skip` excluded"""
+        n = 0
         for s in b:
-            if s['k'] in ('def', 'class'):
-                m |= mentions(s['body'])
-                for p in s.get('params') or []:
-                    m.add(p[1])
-                m |= set(s.get('gl') or []) | set(s.get('nl') or [])
-            elif s['k'] == 'lambda':
-                m |= {a[0] for a in s['atoms']} | {p[1] for p in s['params']}
-            elif s['k'] in ('if', 'for'):
-                m |= nested_mentions(s['body']) | nested_mentions(s.get('orelse') or [])
-        return m
-    if infunc and comp_targets(body) & nested_mentions(body):
-        return True
+            if s is skip:
+                # its own target and inner reads do not count, its first iterable (evaluated in F) does
+                n += sum(1 for a in s['iter'] if a[0] == name)
+                continue
+            n += 1 if name in mentions([dict(s, body=[], orelse=[])] if s['k'] in ('if', 'for') else [s]) else 0
+            if s['k'] in ('if', 'for'):
+                n += mention_count(s['body'], name, skip) + mention_count(s.get('orelse') or [], name, skip)
+        return n
+    if infunc:
+        own = own_bound(body) | set(params)
+        for c in comps(body):
+            t = c['name']
+            if t not in own and mention_count(body, t, c) > 0:
+                return True
     for s in body:
-        if s['k'] == 'def' and pep709_corner(s['body'], True):
+        if s['k'] == 'def' and pep709_corner(s['body'], True, [p[1] for p in s['params']]):
             return True
         if s['k'] == 'class' and pep709_corner(s['body'], False):
             return True
